@@ -34,10 +34,10 @@ def model_runs(ck, tier):
     info = {}
     cfgs = [("2 callers, 2 tenants + global, %d ticks" % (3 if q else 4), {"MaxTick": 3 if q else 4}, 6),
             ("3 callers, 2 tenants + global, %d ticks" % (2 if q else 3), {"Callers": "{c1,c2,c3}", "MaxTick": 2 if q else 3}, 6),
-            ("1 caller: strict statements hold, 4 ticks", {"Callers": "{c1}", "MaxTick": 4}, 4),
+            ("1 caller: strict statements hold, %d ticks" % (3 if q else 4), {"Callers": "{c1}", "MaxTick": 3 if q else 4}, 4),
             ("no global bucket: bound as stated, 2 callers, 4 ticks", {"GCap": 0, "MaxTick": 4}, 4)]
     if not q:
-        cfgs += [("2 callers, 1/3-token units, 3 ticks", {"Unit": 3, "MaxTick": 3}, 6),
+        cfgs += [("2 callers, 1/3-token units, 4 ticks", {"Unit": 3, "MaxTick": 4}, 6),
                  ("2 callers, capacities 2/3/3, 3 ticks", {"Cap1": 2, "Cap2": 3, "GCap": 3, "MaxTick": 3}, 6)]
     for name, consts, w in cfgs:
         r = tlc("RateLimit", consts=consts, workers=w, coverage=True, timeout=3000)
@@ -50,7 +50,7 @@ def model_runs(ck, tier):
     expect = {"window": "TenantWindowBound", "neutral": "RefundNeutral", "withhold": "NoTransientWithhold"}
     info["model_counterexamples"] = {}
     for s, inv in expect.items():
-        r = tlc("RateLimit", consts={"Strict": '"%s"' % s}, workers=1, expect_violation=True, timeout=900)
+        r = tlc("RateLimit", consts={"Strict": '"%s"' % s}, workers=4, expect_violation=True, timeout=900)
         ck.add_tlc("RateLimit Strict=%s (counterexample expected)" % s, r, note="violated: %s" % r.violation)
         info["model_counterexamples"][inv] = {"found": r.violation == inv, "depth": r.depth}
         if r.violation != inv:
